@@ -64,6 +64,7 @@ structure SetInfo where
   toks : List Token := []
   texts : List (Option (List Nat)) := []     -- literal text of String tokens
   word : Option Nat := none
+  extras : Nat := 0
   kws : List Nat := []
   ambig : List Nat := []
   deriving Inhabited
@@ -76,7 +77,9 @@ def parseLit (cs : Array Char) : Option (List Nat) :=
 def parseSet (id spec : String) : SetInfo :=
   match spec.splitOn ";" with
   | w :: rest =>
-    let word := (w.drop 1).toString.toNat?
+    let wx := (w.drop 1).toString.splitOn "x"
+    let word := (wx.headD "").toNat?
+    let extras := ((wx.drop 1).headD "0").toNat?.getD 0
     let toks := rest.map (fun t => match t.splitOn "," with
       | p :: s :: ast =>
         let a := ",".intercalate ast
@@ -84,10 +87,17 @@ def parseSet (id spec : String) : SetInfo :=
         (({ re := (parseRe cs 0).1, prec := p.toInt?.getD 0, isString := s == "1" } : Token),
          (if s == "1" then parseLit cs else none))
       | _ => (default, none))
-    { id := id, toks := toks.map (·.1), texts := toks.map (·.2), word := word }
+    { id := id, toks := toks.map (·.1), texts := toks.map (·.2), word := word, extras := extras }
   | _ => {}
 
-def isExtra (c : Nat) : Bool := (9 ≤ c && c ≤ 13) || c == 32
+/-- the extras shapes of harness/src/bin/c14.rs: 0 /\\s/, 1 /[ \\n]/, 2 / /, 3 / / and /\\n/, 4 /[ \\t]/ -/
+def isExtraOf (shape : Nat) (c : Nat) : Bool :=
+  match shape with
+  | 1 => c == 32 || c == 10
+  | 2 => c == 32
+  | 3 => c == 32 || c == 10
+  | 4 => c == 32 || c == 9
+  | _ => (9 ≤ c && c ≤ 13) || c == 32
 
 def chooser (si : SetInfo) (useRef : Bool) : List Nat → Option Cand :=
   let validMain : Nat → Bool := fun i => !si.kws.contains i
@@ -115,6 +125,7 @@ def classify (si : SetInfo) (a b : Option Cand) : String :=
 /-- kind of the first deviation (lock-step over the input): compares the main lexers, and when both
 return the word token, the keyword lexers -/
 partial def firstDiffKind (si : SetInfo) (cs cr : List Nat → Option Cand) (input : List Nat) : String :=
+  let isExtra := isExtraOf si.extras
   let inp := skipExtras isExtra input
   if inp.isEmpty then "other" else
   let a := cs inp; let b := cr inp
@@ -152,6 +163,7 @@ def sublists : List Nat → List (List Nat)
   | x :: xs => let r := sublists xs; r ++ r.map (x :: ·)
 
 def evalString (si : SetInfo) (cps : String) (input : List Nat) (r : Option (List (Nat × Nat × Nat))) (a : Tally) : Tally :=
+  let isExtra := isExtraOf si.extras
   let cs := chooser si false
   let cr := chooser si true
   let mscan := refTokenize cs isExtra input
